@@ -15,6 +15,9 @@ the model and prints one result per op, joined by `;`:
 
 `c34 <now0 ns> <now1 ns> <refresh ns> <min-refresh ns|-> <expiry ns|->`: `mark_update_done` at
 `now0`, then `refresh_wait` at `now0` and at `now1` → `<wait at now0 ns> <wait at now1 ns>`.
+
+`c34 seq <t0 ns> <refresh ns> <min-refresh ns|-> (<dur ns> <lag ns> <expiry ns|->)*`: a sequence of
+successful regular runs of the server loop → `<waits> | <run starts>` (`schedWaits`, `schedStarts`).
 -/
 namespace RoutinatorModel.Drv
 open RoutinatorModel
@@ -96,8 +99,23 @@ def runHistory (arg : String) : String :=
 def optNat (w : String) : Option (Option Nat) :=
   if w == "-" then some none else w.toNat?.map some
 
+/-- `d l e d l e …` → runs; `none` on a malformed word or a dangling tail. -/
+def parseRuns : List String → Option (List SchedRun)
+  | [] => some []
+  | d :: l :: e :: rest =>
+    match d.toNat?, l.toNat?, optNat e, parseRuns rest with
+    | some d, some l, some e, some rs => some (⟨d, l, e⟩ :: rs)
+    | _, _, _, _ => none
+  | _ => none
+
 def runC34 (arg : String) : String :=
   match words arg with
+  | "seq" :: t0 :: r :: m :: runs =>
+    match t0.toNat?, r.toNat?, optNat m, parseRuns runs with
+    | some t0, some refresh, some minR, some runs =>
+      joinWith " " ((schedWaits refresh minR t0 runs).map toString) ++ " | " ++
+        joinWith " " ((schedStarts refresh minR t0 runs).map toString)
+    | _, _, _, _ => "bad-op"
   | [n0, n1, r, m, e] =>
     match n0.toNat?, n1.toNat?, r.toNat?, optNat m, optNat e with
     | some now0, some now1, some refresh, some minR, some expiry =>
